@@ -123,6 +123,8 @@ func params() []param {
 			p = append(p, param{pr, strings.TrimSpace(fmt.Sprintf("+proj=%s +lat_1=%g +lat_2=%g +lat_0=%g +lon_0=%g %s", pr, sp[0], sp[1], lat0, lon0, origin)), lon0, region})
 		}
 	}
+	// a secant cone with an explicit scale factor and an origin away from the parallels
+	p = append(p, param{"lcc", "+proj=lcc +lat_1=33 +lat_2=45 +lat_0=38 +lon_0=-96 +k_0=0.9992 +x_0=300000 +y_0=200000", -96, "north"})
 	// transverse Mercator
 	for i, lon0 := range []float64{-2, 9, 117} {
 		lat0 := []float64{49, 0, 0}[i]
@@ -140,6 +142,8 @@ func params() []param {
 	// Krovak: defaults and the EPSG:5514 parameters
 	p = append(p, param{"krovak", "+proj=krovak", 24.83333333333333, "krovak"})
 	p = append(p, param{"krovak", "+proj=krovak +lat_0=49.5 +lon_0=24.83333333333333 +alpha=30.28813972222222 +k=0.9999 +x_0=0 +y_0=0", 24.83333333333333, "krovak"})
+	// Krovak about another meridian
+	p = append(p, param{"krovak", "+proj=krovak +lat_0=49.5 +lon_0=20 +k=0.9999 +x_0=0 +y_0=0", 20, "krovak"})
 	return p
 }
 
@@ -240,6 +244,15 @@ func Lattice(full bool) []Def {
 				for _, lat := range []float64{-60, 0, 45.5} {
 					d.Pts = append(d.Pts, [2]float64{l, lat})
 				}
+			}
+			if (pa.region == "north" || pa.region == "south") && o.label == "base" {
+				// both poles, for the plain WGS84 definitions only (a datum hop moves a
+				// pole by metres and then it is no pole any more)
+				l := pa.lon0 + 15
+				if l > 180 {
+					l -= 360
+				}
+				d.Pts = append(d.Pts, [2]float64{l, 90}, [2]float64{l, -90})
 			}
 			if o.pm != 0 {
 				// keep longitudes relative to the prime meridian inside [-180, 180]
